@@ -175,11 +175,37 @@ def expected_of(mds):
 
 
 def run_case(args):
-    cid, mds, positions, backend = args
+    cid, mds, positions, backend = args[:4]
+    hist = args[4] if len(args) > 4 else ()
     q = wrap(mds, positions)
     if backend != "atlas":
         q = q.replace("e.Jets('A')", "e.Muons('A')")
-    pkg = translate(q, backend)
+    if hist:
+        # earlier queries on the SAME executor object: 'apply' = transformed but never written (a dry run / abandoned
+        # translation), 'full' = translated completely, 'fail' = a translation that raised.  The package of the query
+        # under test must hold its own blocks only, each exactly once.
+        from mc.core.translate import _executor_class, parse_query, reset_library_state
+        import tempfile
+        import shutil
+        from pathlib import Path
+        reset_library_state()
+        exe = _executor_class(backend)()
+        for mode, pmds, ppos in hist:
+            pq = wrap(pmds, ppos)
+            try:
+                a2 = exe.apply_ast_transformations(parse_query(pq))
+                if mode != "apply":
+                    d = Path(tempfile.mkdtemp(prefix="vt14_"))
+                    try:
+                        exe.write_cpp_files(a2, d)
+                    finally:
+                        shutil.rmtree(d, ignore_errors=True)
+            except Exception:
+                if mode != "fail":
+                    raise RuntimeError(f"harness: prior query of the history does not translate: {pq}")
+        pkg = translate(q, backend, executor=exe, fresh=False)
+    else:
+        pkg = translate(q, backend)
     # processing order: func_adl reports metadata outermost first
     pairs = list(zip(mds, positions))
     outer_first = [m for m, p in reversed(pairs) if p == 1] + [m for m, p in reversed(pairs) if p == 0]
@@ -197,6 +223,17 @@ def run_case(args):
     probs = check_rendered(pkg.files, exp[1], backend, baseline=base.files if base.ok else None)
     # no unrendered directive may survive unless it was injected as data
     injected = "".join(l for _, fs in exp[1] for ls in fs.values() for l in ls)
+    # nothing of an earlier query's blocks may appear in this package
+    mine = {l for _, fs in exp[1] for ls in fs.values() for l in ls}
+    for _mode, pmds, _pp in hist:
+        for pm in pmds:
+            for k, ls in pm.items():
+                if k in FIELDS:
+                    for l in ls:
+                        if l not in mine:
+                            for fn, txt in pkg.files.items():
+                                if l in txt:
+                                    probs.append(f"{k}: line '{l}' of a block of an EARLIER query appears in {fn}")
     for fn, txt in pkg.files.items():
         for tok in ("{{", "{%", "{#"):
             if tok in txt and tok not in injected:
@@ -235,6 +272,21 @@ def build_cases(tier):
         for order in ((two_a, two_b), (two_b, two_a)):
             for pos in ((0, 0), (0, 1), (1, 0)):
                 cases.append((cid, list(order), pos, "atlas"))
+                cid += 1
+    # history on one executor object: an earlier query (applied only / fully translated / failed) carried blocks
+    for i, f in enumerate(FIELDS):
+        prior = block_md("hz", {f: [mk_line(f"H{i}a_"), mk_line(f"H{i}b_")], "body_includes": [mk_line(f"H{i}inc_")]})
+        prior_conflict = [prior, block_md("hz", {f: [mk_line(f"H{i}other_")]})]
+        currents = {
+            "none": [],
+            "same-block": [prior],
+            "same-name-other-content": [block_md("hz", {f: [mk_line(f"H{i}new_")]})],
+            "other-block": [block_md("hy", {f: [mk_line(f"H{i}y_")]})],
+        }
+        for mode, pm in (("apply", [prior]), ("full", [prior]), ("fail", prior_conflict), ("apply-twice", [prior])):
+            for cname, cur in currents.items():
+                h = [(mode.split("-")[0], pm, (0,) * len(pm))] * (2 if mode == "apply-twice" else 1)
+                cases.append((cid, cur, (0,) * len(cur), "atlas", tuple(h)))
                 cid += 1
     # CMS: body includes
     for backend in ("cms_aod", "cms_miniaod"):
